@@ -287,7 +287,7 @@ def c07(tier, seed):
         o1, c1 = units_incrate.run_spec(units_incrate.lattice_spec() + units_incrate.subscriptions_spec())
         return o1, c1
     return _verus_prop("C07", tier, seed, [("edges", r"consider_edge", None), ("has_float", None, None), ("has_tp_array", None, None),
-                                           ("has_destructor", None, None), ("lattice_insert", None, None), ("analyze", None, None), ("lattice_constrain", r"::constrain::", None), ("constrain", r"::CannotDerive::(constrain|insert)::", None), ("trace_impls", None, None)], {
+                                           ("has_destructor", None, None), ("lattice_insert", None, None), ("analyze", None, None), ("lattice_constrain", r"::constrain::", None), ("constrain", r"::CannotDerive::(constrain|insert)::", None), ("trace_impls", None, None), ("deps", None, None)], {
         "trusted_base": INCRATE_TRUST + ["read-sets of each analysis' constrain (contracts/edges.py, hand-derived from the constrain bodies and the Trace impls)",
                                         "declared lattice orders taken from the enums' doc comments"],
         "functions_under_contract": ["bindgen/ir/derive.rs: CanDerive::join, BitOr, BitOrAssign", "bindgen/ir/analysis/has_vtable.rs: HasVtableResult::join(+ops), HasVtableAnalysis::consider_edge",
@@ -297,12 +297,13 @@ def c07(tier, seed):
                                      "bindgen/ir/analysis/{has_float,has_type_param_in_array,has_destructor}.rs: insert and MonotoneFramework::constrain (units has_float, has_tp_array, has_destructor: inflationary, Changed <=> the fact set changed, fix-point equation of the rule; 'any base/field/argument has the fact' iterator chains = uninterpreted functions of the fact set)",
                                      "bindgen/ir/analysis/{has_vtable,sizedness}.rs: MonotoneFramework::constrain of HasVtableAnalysis and SizednessAnalysis (unit lattice_constrain: only the node moves, to the join of its old fact and the documented rule applied to the current facts of its neighbours; Changed <=> it moved; insert/forward used through their contracts; the unreachable!() arms proved unreachable under the stated IR invariants)",
                                      "bindgen/ir/{ty,comp,template,function,item}.rs: the Trace impls of Type, CompInfo, CompFields, Field, TemplateInstantiation, FunctionSig and Item (unit trace_impls, generic in the tracer): the exact sequence of (target, EdgeKind) each reports - inner types as TypeReference, bases as BaseMember, template definition / arguments as TemplateDeclaration / TemplateArgument, parameters as FunctionParameter, ...; nothing for stdint-named types, no bases/fields for opaque compounds - i.e. the table the subscription check (unit edges) is stated against",
+                                     "bindgen/ir/analysis/mod.rs: the edge-recording callback of generate_dependencies (unit deps, closure R18): an edge item -> sub_item is recorded reversed exactly when sub_item is allowlisted and the analysis' consider_edge accepts its kind; bindgen/ir/analysis/template_params.rs: the edge-recording callback of UsedTemplateParameters::new records EVERY traced edge (its consider_edge rejects TemplateDeclaration, which constrain_instantiation reads through)",
                                      "bindgen/ir/analysis/mod.rs: analyze::<A> -- the generic worklist driver, for EVERY analysis A satisfying the MonotoneFramework obligations (unit analyze: at return every node of the initial worklist is stable, i.e. re-applying its rule changes nothing; `while let` desugared by its definition (R19), the each_depending_on callback = append of the dependents (R16); termination not proved)",
                                      "bindgen/ir/analysis/{has_vtable,sizedness,derive}.rs: insert (+forward) of the lattice-valued analyses (unit lattice_insert: the key moves only up, to the join; Changed <=> it moved; Entry API desugared by rule R17)"],
         "assumptions": ["necessary conditions of the least-fixed-point property: (i) joins are least upper bounds of the declared orders, (ii) every edge kind a rule reads along is in the analysis' subscription predicate, (iii) every table update is inflationary and reports Changed exactly when the table changed, (iv) the three set-valued rules compute the fact of a node from the current facts of its neighbours (fix-point equation)",
                         "(v) the driver: assuming of an analysis that constrain(n) leaves n stable, that Same changes nothing and that Changed can de-stabilise only nodes each_depending_on(n) reports (env/analyze_env.rs), analyze returns a state in which every node of the initial worklist is stable",
                         "CannotDerive::constrain IS under contract (unit constrain: node_rule = per-type rule + large-alignment conservatism, member join uninterpreted); UsedTemplateParameters::constrain is NOT; CannotDerive does not satisfy the driver's assumption for NON-allowlisted sub-items (it has no dependency edges for them and relies on the seed order of its initial_worklist instead: seed S24 missed)"],
-        "unverified": ["constrain of template_params (UsedTemplateParameters); CannotDerive::constrain_join (which members are joined); the initial_worklist functions (iterator chains); generate_dependencies; the Trace impl of ObjCInterface; the getters the verified Trace impls read; completeness of the read-sets; termination; the declaration-order corollary"],
+        "unverified": ["constrain of template_params (UsedTemplateParameters); CannotDerive::constrain_join (which members are joined); the initial_worklist functions (iterator chains); the loops around the dependency-recording callbacks (generate_dependencies, UsedTemplateParameters::new: that every allowlisted item is traced); the Trace impl of ObjCInterface; the getters the verified Trace impls read; completeness of the read-sets; termination; the declaration-order corollary"],
     }, extra_obs=extra)
 
 
